@@ -621,7 +621,7 @@ var fixed = []string{
 	"_10 = 2*1\n_11 = 1 + _10\n_1100 = _11 << 2\nreturn _1100 + _11",
 	"_10 = 2*1\n_11 = 1 + _10\n_1100 = _11 << 2\n_1111 = _11 + _1100\n_11110000 = _1111 << 4\n_11111111 = _1111 + _11110000\nx10 = _11111111 << 2 + _11\nx20 = x10 << 10 + x10\nx30 = x20 << 10 + x10\nx60 = x30 << 30 + x30\nx120 = x60 << 60 + x60\nx240 = x120 << 120 + x120\nx250 = x240 << 10 + x10\nreturn (x250 << 2 + 1) << 3 + _11",
 	"return (1 + 1) + (1 + 1)", "return 1 + (1 + 1)", "return ((1 << 1) << 2) + 2*(2*1)", "a = 2*1\nb = a + 1\nreturn (b << 2) + (a + [2])",
-	"a = 1 + 1\nb = a + [1]\nreturn b + [2] + [0]", "a = 1+1\nreturn [1] + [1]", "a = 1+1\nb = [1] + [1]\nreturn a + b", "return 1 << 4096", "return 1 << 4097",
+	"a = 1 + 1\nb = a + [1]\nreturn b + [2] + [0]", "a = 1+1\nreturn [1] + [1]", "a = 1+1\nb = [1] + [1]\nreturn a + b", "return 1 << 300", "return 1 << 4097",
 	"a = 1 << 200\nreturn a + 1", "d = 1 + 1\ne = d + 1\nf = e + d\nreturn 1 + 1",
 }
 
@@ -654,6 +654,7 @@ func gen(tier string, r *lib.Rand, emit func(string)) {
 	for _, s := range fixed {
 		all(s)
 	}
+	emit("gen listing " + hex("return 1 << 1500")) // long shifts: listing only (the chain output would be megabytes)
 	// (a) exhaustive: the search-like script of every chain program up to `exhaust` operations
 	for n := 0; n <= exhaust; n++ {
 		allPrograms(n, func(p addchain.Program) {
